@@ -358,7 +358,9 @@ pub fn generate(cfg: &RunCfg, out: &mut Outcome) -> Scenario {
     // here one cut, biased to the end of the head, keeps "never a wait for input that already arrived" honest)
     let cut = if class == 0 && bytes.len() > 2 && t::chance(1, 4) {
         let hl = base.head_bytes().len().min(bytes.len() - 1);
-        let at = match t::weighted(&[2, 2, 1]) {
+        let at = match t::weighted(&[2, 2, 1, 1]) {
+            // inside or right behind the method token: decisions taken on the first bytes alone
+            3 => (1 + t::draw(9) as usize).min(bytes.len() - 1),
             0 => 1 + t::draw((bytes.len() - 1) as u32) as usize,
             1 => hl.saturating_sub(t::draw(5) as usize).max(1),
             _ => (hl + t::draw(3) as usize).min(bytes.len() - 1),
